@@ -318,7 +318,7 @@ def m_port(rng, ws):
     if any(x["name"] == d["name"] and x is not d for x in defs):
         return None
     svc = len(d["secs"]) == 2
-    cands = [0, 255, 256, 383, 384, 511, 512, 600] if svc else [0, 6143, 6144, 7167, 7168, 8191, 8192, 9000]
+    cands = [0, 255, 256, 383, 384, 511, 512, 600, -1, -300, -511, 1024, 2**16] if svc else [0, 6143, 6144, 7167, 7168, 8191, 8192, 9000, -1, -5, -6144, -8191, -8192, 2**16, 2**32 + 1]
     p = rng.choice(cands)
     if any(x.get("port") == p and (len(x["secs"]) == 2) == svc for x in defs):
         return None
